@@ -25,7 +25,7 @@ def plan(tier):
             out.append((C.cfg(two, edges, [dep_out, 'ok'], 2), 2))
             if tier == 'thorough' or dep_out in ('ok', 'badupdate'):
                 out.append((C.cfg(two, C.backward_variants(edges, two), ['ok', dep_out], 2), 2))
-            out.append((C.cfg(two, edges, [dep_out, 'ok'], 1), 3))
+            out.append((C.cfg(two, edges, [dep_out, 'ok'], 1), 3 if tier == 'thorough' or dep_out in ('ok', 'raise', 'fail', 'badupdate') else 2))
     out.append((C.cfg(two, C.CHAIN2, ['ok', 'ok'], 3), 0 if tier == 'quick' else 1))
     # B: 3-task shapes with mixed edges, 2 workers
     heavy = [C.FORK3HS, C.JOIN3HS] if tier == 'quick' else \
@@ -44,6 +44,11 @@ def plan(tier):
         for members in ((0,), (1,), (2,), (0, 1), (1, 2), (0, 2)):
             for first in (True, False):
                 out.append((C.cfg(3, edges, ['ok'] * 3, 2, nest=(members, first)), 1))
+    # B''': a second schedule() on the same backend object in which a task has gained a dependency (hard or soft)
+    for second in (C.CHAIN2, C.CHAIN2S, C.backward_variants(C.CHAIN2, two)):
+        out.append((C.cfg(two, [], ['ok', 'ok'], 2, second=second), 2 if tier == 'thorough' else 1))
+    if tier == 'thorough':
+        out.append((C.cfg(3, C.CHAIN2, ['ok'] * 3, 2, second=C.JOIN3HS), 1))
     # C: every forward DAG on 3 tasks, every edge hard or soft
     for edges in C.forward_dags(3):
         out.append((C.cfg(3, edges, ['ok'] * 3, 2), 1))
